@@ -81,13 +81,22 @@ def defTitle (t : Option Str) : Option Str :=
   | some x => if x.isEmpty then none else some (normalizeTitleRaw x)
   | none => none
 
+/-- `re.sub(r"[ \t]+", " ", text)` of `render_raw_text` -/
+def collapseSpTabAux : Bool → Str → Str
+  | _, [] => []
+  | inSp, c :: cs =>
+    if c == ' ' || c == '\t' then (if inSp then collapseSpTabAux true cs else ' ' :: collapseSpTabAux true cs)
+    else c :: collapseSpTabAux false cs
+
+def collapseSpTab (s : Str) : Str := collapseSpTabAux false s
+
 def findLabel (defs : List (Str × Str × Option Str)) (dest : Str) (title : Option Str) : Option Str :=
   (defs.find? fun d => d.2.1 == dest && defTitle d.2.2 == title).map (·.1)
 
 mutual
   /-- returns (rendered text, new `_current_inline_text`) -/
   def renderInline (cfg : RCfg) (inH : Bool) (acc : Str) : Inline → Str × Str
-    | .raw s => (s, acc ++ s)
+    | .raw s => (collapseSpTab s, acc ++ collapseSpTab s)
     | .code s => (renderCodeSpan s, acc)
     | .em cs => let r := renderInlines cfg inH acc cs; ('*' :: r.1 ++ ['*'], r.2)
     | .strong cs => let r := renderInlines cfg inH acc cs; ("**".toList ++ r.1 ++ "**".toList, r.2)
